@@ -3,6 +3,6 @@ CONSTANTS
   CharsM = {1, 2, 5}
   MaxPat = 2
   MaxFld = 3
-  D_AndRegexp = TRUE
-INVARIANTS TypeOK ImplRefinesDecl CondOrderIrrelevant InvertIsNegation AndRegexpNeverMatches Export
+  D_AndRegexp = FALSE
+INVARIANTS TypeOK ImplRefinesDecl ImplMatchesDecl CondOrderIrrelevant InvertIsNegation Export
 CHECK_DEADLOCK FALSE
